@@ -340,10 +340,15 @@ type vlister struct {
 	name   string
 	infos  []os.FileInfo
 	Closes int
+	req    *Request // the request the lister was made for
 }
 
 func (l *vlister) ListAt(out []os.FileInfo, off int64) (int, error) {
 	vsched.Env("lister.listat:"+l.name, l, false, nil)
+	if l.req != nil {
+		// what a paged back end does: a context of its own for this page, derived from the request's
+		_ = l.req.WithContext(l.req.Context())
+	}
 	l.h.log("ListAt %s off=%d", l.name, off)
 	if off >= int64(len(l.infos)) {
 		return 0, io.EOF
@@ -500,7 +505,7 @@ func (h *vhandler) Filelist(r *Request) (ListerAt, error) {
 			names = append(names, n)
 		}
 		sort.Strings(names)
-		l := &vlister{h: h, name: r.Filepath}
+		l := &vlister{h: h, name: r.Filepath, req: r}
 		for _, n := range names {
 			if r.Filepath != "/" {
 				// a sub-directory lists the files below it, by their base names
